@@ -1,4 +1,5 @@
 (* C11 — proofs about Model/Sbom.v against Spec/SbomSpec.v. *)
+From Coq Require Import Permutation.
 From Apko Require Import Base.Prelude Base.Regex Generated.Regexes Model.Sbom Spec.SbomSpec.
 Open Scope string_scope. Open Scope list_scope.
 
@@ -526,4 +527,147 @@ Lemma generate_plain_digests perm g d : NoEmbedded g -> generate perm g = Ok d -
   (NoDup (ids (base_doc g)) -> NamesLayers (g_layers g) d).
 Proof.
   intros NE H. split; [intro I; exact (generate_plain_image perm g d NE I H) | intro N; exact (generate_plain_layers perm g d NE N H)].
+Qed.
+
+(* ---- embedded SBOMs: one apk's step keeps references resolved (inside the envelope) ------------------ *)
+Definition closed (rels : list rel) (td : list string) : Prop :=
+  forall r, In r rels -> String.prefix file_pfx (r_related r) = false -> In (r_elem r) td -> In (r_related r) td.
+
+Definition step (td : list string) (r : rel) : list string :=
+  if String.prefix file_pfx (r_related r) then td
+  else if mem (r_elem r) td then add (r_related r) td else td.
+
+Lemma sweep_fold rs td : sweep rs td = fold_left step rs td.
+Proof. reflexivity. Qed.
+
+Lemma step_len td r : (List.length td <= List.length (step td r))%nat.
+Proof. unfold step. destruct (String.prefix _ _); [lia|]. destruct (mem (r_elem r) td); [apply add_length | lia]. Qed.
+
+Lemma step_same td r : List.length (step td r) = List.length td ->
+  step td r = td /\ (String.prefix file_pfx (r_related r) = false -> In (r_elem r) td -> In (r_related r) td).
+Proof.
+  unfold step. destruct (String.prefix _ _); [intros _; split; [reflexivity | discriminate]|].
+  destruct (mem (r_elem r) td) eqn:E.
+  - unfold add. destruct (mem (r_related r) td) eqn:E2.
+    + intros _. split; [reflexivity|]. intros _ _. apply mem_In, E2.
+    + rewrite app_length. simpl. lia.
+  - intros _. split; [reflexivity|]. intros _ H. apply mem_In in H. congruence.
+Qed.
+
+Lemma sweep_len rs : forall td, (List.length td <= List.length (sweep rs td))%nat.
+Proof.
+  induction rs as [|r rs IH]; intro td; rewrite sweep_fold; simpl; [lia|].
+  rewrite <- sweep_fold. pose proof (step_len td r). pose proof (IH (step td r)). lia.
+Qed.
+
+Lemma sweep_incl rs : forall td x, In x td -> In x (sweep rs td).
+Proof.
+  induction rs as [|r rs IH]; intros td x H; rewrite sweep_fold; simpl; [exact H|].
+  rewrite <- sweep_fold. apply IH. unfold step. destruct (String.prefix _ _); [exact H|].
+  destruct (mem (r_elem r) td); [apply add_spec; left; exact H | exact H].
+Qed.
+
+Lemma sweep_same rs : forall td, List.length (sweep rs td) = List.length td -> sweep rs td = td /\ closed rs td.
+Proof.
+  induction rs as [|r rs IH]; intros td H; rewrite sweep_fold in *; simpl in *.
+  - split; [reflexivity | intros r []].
+  - rewrite <- sweep_fold in *. pose proof (step_len td r). pose proof (sweep_len rs (step td r)).
+    destruct (step_same td r) as [S1 S2]; [lia|]. rewrite S1 in *. destruct (IH td H) as [A B].
+    split; [exact A|]. intros r' [<-|Hr]; [exact S2 | apply B, Hr].
+Qed.
+
+Lemma closure_closed rels : forall fuel prev td r,
+  (List.length td = prev -> closed rels td) -> closure fuel rels prev td = Ok r -> closed rels r /\ incl td r.
+Proof.
+  induction fuel as [|f IH]; intros prev td r Hc; simpl; destruct (Nat.eqb (List.length td) prev) eqn:E.
+  - intro H; inversion H; subst. apply Nat.eqb_eq in E. split; [apply Hc, E | apply incl_refl].
+  - discriminate.
+  - intro H; inversion H; subst. apply Nat.eqb_eq in E. split; [apply Hc, E | apply incl_refl].
+  - intro H. apply IH in H.
+    + destruct H as [A B]. split; [exact A|]. intros x Hx. apply B, sweep_incl, Hx.
+    + intro L. destruct (sweep_same rels td L) as [S C]. rewrite S. exact C.
+Qed.
+
+Lemma copy_elements_refs src tgt todo0 d : RefsResolve tgt -> copy_elements src tgt todo0 = Ok d ->
+  RefsResolve d /\ d_desc d = d_desc tgt /\ incl todo0 (ids d) /\
+  exists ps, d_pkgs d = d_pkgs tgt ++ ps.
+Proof.
+  intros [A B] H. unfold copy_elements in H. apply rbind_ok in H. destruct H as (todo & Hc & H).
+  apply closure_closed in Hc.
+  2:{ intro L. destruct todo0; [intros r _ _ []| discriminate L]. }
+  destruct Hc as [C I].
+  match type of H with (if ?c then _ else _) = _ => destruct c eqn:F; [|discriminate H] end.
+  inversion H; subst; clear H. rewrite forallb_forall in F.
+  set (ps := filter (fun p => mem (p_id p) todo) (d_pkgs src)) in *.
+  assert (forall x, In x todo -> In x (List.map p_id (d_pkgs tgt ++ ps))) as T.
+  { intros x Hx. rewrite map_app, in_app_iff. right. apply mem_In, F, Hx. }
+  split; [|split; [reflexivity | split; [|exists ps; reflexivity]]].
+  - split; unfold ids; cbn [d_pkgs d_rels d_desc].
+    + intros r Hr. apply in_app_or in Hr. destruct Hr as [Hr|Hr].
+      * destruct (A r Hr). rewrite map_app, !in_app_iff. tauto.
+      * apply filter_In in Hr. destruct Hr as [Hr Hf]. apply andb_true_iff in Hf. destruct Hf as [He Hp].
+        apply negb_true_iff in Hp. apply mem_In in He. split; [apply T, He | apply T, (C r Hr Hp He)].
+    + intros x Hx. rewrite map_app, in_app_iff. left. apply B, Hx.
+  - intros x Hx. apply T, I, Hx.
+Qed.
+
+Lemma replace_package_refs d o n : RefsResolve d -> In n (ids d) -> n <> o -> (List.length (d_desc d) <= 1)%nat ->
+  RefsResolve (replace_package d o n) /\ List.length (d_desc (replace_package d o n)) = List.length (d_desc d).
+Proof.
+  intros [A B] Hn Hne Hl. unfold replace_package.
+  set (kept := filter (fun p => negb (String.eqb (p_id p) o)) (d_pkgs d)).
+  assert (forall x, In x (ids d) -> x <> o -> In x (List.map p_id kept)) as K.
+  { intros x Hx Hxo. unfold ids in Hx. apply in_map_iff in Hx. destruct Hx as (p & <- & Hp).
+    apply in_map. apply filter_In. split; [exact Hp|]. apply negb_true_iff, String.eqb_neq, Hxo. }
+  assert (In n (List.map p_id kept)) as Kn by (apply K; assumption).
+  assert (forall x, In x (ids d) -> In (subst_id o n x) (List.map p_id kept)) as S.
+  { intros x Hx. unfold subst_id. destruct (String.eqb x o) eqn:E; [exact Kn|]. apply K; [exact Hx | apply String.eqb_neq, E]. }
+  destruct kept as [|k0 kt] eqn:EK; [destruct Kn|]. rewrite <- EK in *. clear EK.
+  split.
+  - split; unfold ids; cbn [d_pkgs d_rels d_desc].
+    + intros r Hr. apply in_map_iff in Hr. destruct Hr as (r0 & <- & Hr0). cbn [r_elem r_related].
+      destruct (A r0 Hr0). split; apply S; assumption.
+    + intros x Hx. destruct (d_desc d) as [|y [|z t]]; simpl in *; [destruct Hx| |lia].
+      pose proof (S y (B y (or_introl eq_refl))) as Sy. unfold subst_id in Sy.
+      destruct (String.eqb y o); destruct Hx as [<-|[]]; exact Sy.
+  - cbn [d_desc]. clear. induction (d_desc d) as [|y t IH]; simpl; [reflexivity|]. destruct (String.eqb y o); simpl; congruence.
+Qed.
+
+Lemma find_app_l {A} (f : A -> bool) l1 l2 : (exists x, In x l1 /\ f x = true) ->
+  exists q, find f (l1 ++ l2) = Some q /\ In q l1.
+Proof.
+  induction l1 as [|a l1 IH]; intros (x & Hx & Fx); [destruct Hx|]. simpl.
+  destruct (f a) eqn:E; [exists a; split; [reflexivity | left; reflexivity]|].
+  destruct Hx as [->|Hx]; [congruence|]. destruct IH as (q & Hq & Iq); [eauto|]. exists q. split; [exact Hq | right; exact Iq].
+Qed.
+
+(* one apk with an embedded SBOM, inside the envelope: at most one target, which is
+   not yet an id of the document, and the document already holds an element with
+   the apk's name (Generate has just appended the apk's own element) *)
+Lemma process_internal_refs perm fs d pname pversion e d' :
+  RefsResolve d -> (List.length (d_desc d) <= 1)%nat ->
+  locate fs (candidates pname pversion) = Some (FDoc e) ->
+  (List.length (targets pname e) <= 1)%nat ->
+  (forall l, Permutation (perm l) l) ->
+  (forall t, In t (targets pname e) -> ~ In t (ids d)) ->
+  (exists p, In p (d_pkgs d) /\ p_name p = pname) ->
+  process_internal perm fs d pname pversion = Ok d' ->
+  RefsResolve d' /\ List.length (d_desc d') = List.length (d_desc d).
+Proof.
+  intros R L Loc T P Fresh Own H. unfold process_internal in H. rewrite Loc in H.
+  apply rbind_ok in H. destruct H as (d1 & Hc & H). inversion H; subst; clear H.
+  destruct (copy_elements_refs _ _ _ _ R Hc) as (R1 & D1 & I1 & ps & P1).
+  specialize (P (targets pname e)).
+  destruct (targets pname e) as [|t [|t2 tl]] eqn:ET; [| |simpl in T; lia].
+  - apply Permutation_sym, Permutation_nil in P. rewrite P. simpl. rewrite D1. tauto.
+  - apply Permutation_sym, Permutation_length_1_inv in P. rewrite P. simpl. unfold replace_step.
+    destruct Own as (p & Hp & Np).
+    destruct (find_app_l (fun q => String.eqb (p_name q) pname) (d_pkgs d) ps) as (q & Fq & Iq).
+    { exists p. split; [exact Hp | apply String.eqb_eq, Np]. }
+    rewrite P1, Fq.
+    destruct (replace_package_refs d1 (p_id q) t R1) as [R2 L2].
+    + apply I1. left; reflexivity.
+    + intro E. apply (Fresh t (or_introl eq_refl)). rewrite E. apply in_map, Iq.
+    + rewrite D1. exact L.
+    + split; [exact R2 | rewrite L2, D1; reflexivity].
 Qed.
